@@ -122,6 +122,7 @@ type RPCFaults struct {
 	LatJit   time.Duration
 	SlowDen  int // 1 in SlowDen calls is delayed by SlowBy (beyond the join timeout)
 	SlowBy   time.Duration
+	SlowNth  int // exactly the n-th call (1-based) is delayed by SlowBy; 0 = off
 	FailDen  int // 1 in FailDen calls fails with a transport error
 	// FailNth fails exactly the n-th call (1-based) of the kinds counted by the service; 0 = off
 	FailNth  int
@@ -449,7 +450,10 @@ func (b *SimBESS) submit(reqBytes []byte, inc int) *rpcCall {
 	f := &b.Faults
 	failThis := (f.FailNth != 0 && b.calls == f.FailNth) || (f.FailDen > 0 && s.Ch.Bool(1, f.FailDen, "bess-fail"))
 	d1 := f.lat(s)
-	if f.SlowDen > 0 && s.Ch.Bool(1, f.SlowDen, "bess-slow") {
+	if f.SlowNth != 0 && b.calls == f.SlowNth {
+		d1 += f.SlowBy
+		b.Fired["bess-slow"]++
+	} else if f.SlowDen > 0 && s.Ch.Bool(1, f.SlowDen, "bess-slow") {
 		d1 += f.SlowBy
 		b.Fired["bess-slow"]++
 	}
